@@ -168,7 +168,7 @@ func (c VSCRelay) NewWorker(stats *engine.Stats) (engine.Worker, error) {
 		n.Led[cid] = led
 		w.rootVs = append(w.rootVs, w.checkConsumer(n, cid, "boot")...)
 	}
-	if c.Variant == "open" || c.Variant == "batch" {
+	if c.Variant == "open" || c.Variant == "batch" || c.Variant == "expiry" {
 		for _, cid := range w.cons {
 			if err := xw.Open(n.XNode, cid); err != nil {
 				return nil, fmt.Errorf("open %s: %w", cid, err)
@@ -231,7 +231,32 @@ func (w *vrWorker) build() {
 			})
 		}
 	}
-	if w.cfg.Variant == "batch" {
+	if w.cfg.Variant == "expiry" {
+		// nobody relays for longer than the trusting periods: both light clients expire
+		w.tab.Add("wait(U,no-relay)", func(n engine.Node) (engine.Node, []V) {
+			x := n.(*vrNode)
+			c := x.clone()
+			pr, crs := w.w.Wait(c.XNode, p.Cfg.Unbonding, false)
+			vs := haltViolation("provider", pr)
+			for _, r := range crs {
+				vs = append(vs, haltViolation("consumer", r)...)
+			}
+			if pr.Halt() != "" {
+				return nil, vs
+			}
+			// bookkeeping the two block handlers would have done
+			vs = append(vs, w.updateLedger(c)...)
+			for _, cid := range w.cons {
+				led := c.Led[cid]
+				led.AtStart = led.Delivered
+				led.HeightID[c.C[cid].Height()] = led.AtStart
+				c.Led[cid] = led
+			}
+			w.stats.Count("clients-expired")
+			return c, vs
+		})
+	}
+	if w.cfg.Variant == "batch" || w.cfg.Variant == "expiry" {
 		// small alphabet aimed at several packets landing in one consumer block
 		w.ptx("delegate(v1,+1)", func(*vrNode) sdk.Msg { return env.MsgDelegate(p.Delegator, p.Vals[1], unit) })
 		w.ptx("undelegate(v0,-1)", func(*vrNode) sdk.Msg { return env.MsgUndelegate(p.Vals[0].Oper, p.Vals[0], unit) })
@@ -253,6 +278,7 @@ func (w *vrWorker) build() {
 		v := p.Vals[i]
 		w.ptx(fmt.Sprintf("undelegate(v%d,-1)", i), func(*vrNode) sdk.Msg { return env.MsgUndelegate(v.Oper, v, unit) })
 	}
+	w.ptx("redelegate(v0->v1,1)", func(*vrNode) sdk.Msg { return env.MsgRedelegate(p.Vals[0].Oper, p.Vals[0], p.Vals[1], unit) })
 	w.ptx("assign(v0,c0,k1)", func(*vrNode) sdk.Msg { return env.MsgAssignKey(p.Vals[0], "0", w.k1) })
 	w.ptx("optout(v1,c0)", func(*vrNode) sdk.Msg { return env.MsgOptOut(p.Vals[1], "0") })
 	w.ptx("optin(v2,c0)", func(x *vrNode) sdk.Msg {
@@ -317,6 +343,15 @@ func (w *vrWorker) pblock(x *vrNode, extra time.Duration) (engine.Node, []V) {
 	if r.Halt() != "" {
 		return nil, vs
 	}
+	vs = append(vs, w.updateLedger(c)...)
+	return c, vs
+}
+
+// updateLedger teaches the monitor the sets the provider decided in the block(s) that just ended:
+// packets that left on the channel plus packets still pending in the store.
+func (w *vrWorker) updateLedger(c *vrNode) []V {
+	p := w.p
+	var vs []V
 	c.LastVsc = p.K.GetValidatorSetUpdateId(c.P.Ctx)
 	// ledger: new packets for each launched consumer = packets sent in this block + still pending
 	for _, cid := range w.cons {
@@ -392,7 +427,7 @@ func (w *vrWorker) pblock(x *vrNode, extra time.Duration) (engine.Node, []V) {
 		}
 		c.Led[cid] = led
 	}
-	return c, vs
+	return vs
 }
 
 func (w *vrWorker) deliver(x *vrNode, cid string, k int) (engine.Node, []V) {
